@@ -389,13 +389,16 @@ def BASE(value, base, places=DEFAULT):
             return places
         if places < 0:
             return error.NUM
-    if value == 0:
-        return '0'
+    if value < 0 or base < 2 or base > 36:
+        return error.NUM
+    value = int(value)
+    base = int(base)
+    alphabet = '0123456789ABCDEFGHIJKLMNOPQRSTUVWXYZ'
     digits = []
     while value:
-        digits.append(int(value % base))
+        digits.append(alphabet[value % base])
         value //= base
-    result = ''.join(str(n) for n in digits[::-1])
+    result = ''.join(digits[::-1]) or '0'
     if places is not DEFAULT:
         if len(result) > places:
             return error.NUM
